@@ -166,6 +166,7 @@ def path_encoding(flag, cmax, claim, depth=2, maxlen=3, regions=()):
   claim 'sibling': same parent path and count, different last name"""
   t0 = time.time()
   queries = 0
+  second = {}
   claim = ['all', 'count', 'sibling'][claim] if isinstance(claim, int) else claim
   for k in range(0, depth + 1):
     for l in range(0, depth + 1):
@@ -197,6 +198,14 @@ def path_encoding(flag, cmax, claim, depth=2, maxlen=3, regions=()):
       # vacuity guard: assumptions alone must be satisfiable
       queries += 1
       r = s.check()
+      # second solver (cvc5 binary) on the same SMT-LIB2 text: must agree
+      from vf import smt2
+      other = smt2.cvc5_verdict(s)
+      second[other] = second.get(other, 0) + 1
+      if other not in ('unavailable', str(r)):
+        return dict(status='unknown', queries=queries, solver_s=time.time() - t0,
+                    detail='z3 says %s, cvc5 says %s for shape %d,%d' % (r, other,
+                                                                         k, l))
       if r == z3.unknown:
         return dict(status='unknown', queries=queries, detail='shape %d,%d' % (k, l),
                     solver_s=time.time() - t0)
@@ -219,7 +228,7 @@ def path_encoding(flag, cmax, claim, depth=2, maxlen=3, regions=()):
     return dict(status='unknown', queries=queries, detail='vacuous encoding')
   return dict(status='unsat', queries=queries, solver_s=time.time() - t0,
               witness=dict(shapes='k,l in 0..%d' % depth, maxlen=maxlen, flag=flag,
-                           cmax=cmax))
+                           cmax=cmax, cvc5_verdicts=second))
 
 
 def replay_path_encoding(a_names, a_count, b_names, b_count, flag):
